@@ -199,9 +199,13 @@ def load_known(prop):
     with open(path) as fh:
         data = json.load(fh)
     preds = getattr(prop, "KNOWN_PREDICATES", {})
-    for f in data.get("findings", []):
-        if f.get("property") != prop.ID:
+    for f0 in data.get("findings", []):
+        # one root cause may surface under several properties: per-property predicate and reproducer
+        per = f0.get("checks", {}).get(prop.ID)
+        if per is None:
             continue
+        f = dict(f0)
+        f.update(per)
         pred = preds.get(f.get("predicate"))
         if pred is None:
             raise HarnessError(f"known finding {f.get('id')} names unknown predicate {f.get('predicate')}")
